@@ -736,6 +736,19 @@ def _(d):
                 dtypes=FL)], g.slice
 
 
+@spec("grid.slice_near_centres", "gis")
+def _(d):
+    # points computed the way a caller would (corner + k*cellsize +
+    # cellsize/2, linspace): equal to the cell centres up to one ulp
+    g = Grid("z", 6, 6, cellsize=0.1, xllcorner=0.3, yllcorner=-0.7)
+    g.data = np.resize(d.obs, 36).reshape(6, 6)
+    k = np.arange(6)
+    xy = np.column_stack([0.3 + k * 0.1 + 0.05,
+                          np.linspace(-0.65, -0.15, 6)[::-1]])
+    return [d.V(xy, containers=ND, dtypes=("float64",), inject=False)], \
+        g.slice
+
+
 @spec("grid.clip", "gis")
 def _(d):
     return [_field(d)], lambda g: g.clip(0.5, 0.5, 2.5, 2.5)
